@@ -346,7 +346,8 @@ Record sys := mkS {
   net : list (Z * pout);          (* (sender, message) in flight *)
   timers : list (Z * Z);          (* (node, original ballot) pending PaxosRetry *)
   sent : list (Z * pout);         (* ghost: every message ever sent *)
-  proposed : list Z               (* ghost: every value a client proposed *)
+  proposed : list Z;              (* ghost: every value a client proposed *)
+  votes : list (Z * ballot * option Z)   (* ghost: (node, accepted ballot, accepted value) after every handler call *)
 }.
 
 Inductive action :=
@@ -362,7 +363,7 @@ Fixpoint remove_nth {A} (k : nat) (l : list A) : list A :=
   | S k', x :: r => x :: remove_nth k' r
   end.
 
-Definition sys_init : sys := mkS (fun _ => pinit) [] [] [] [].
+Definition sys_init : sys := mkS (fun _ => pinit) [] [] [] [] [].
 
 Definition upd_node (f : Z -> pstate) (i : Z) (s : pstate) : Z -> pstate :=
   fun j => if j =? i then s else f j.
@@ -372,7 +373,8 @@ Definition sys_handle (n : Z) (w : sys) (i : Z) (inp : pin) (net' : list (Z * po
   let '(s', outs) := step (cfg_of n i) (nodes w i) inp in
   let msgs := map (fun o => (i, o)) (filter (fun o => negb (is_retry o)) outs) in
   let tms := flat_map (fun o => match o with ORetry b => [(i, b)] | _ => [] end) outs in
-  mkS (upd_node (nodes w) i s') (net' ++ msgs) (timers' ++ tms) (sent w ++ msgs) proposed'.
+  mkS (upd_node (nodes w) i s') (net' ++ msgs) (timers' ++ tms) (sent w ++ msgs) proposed'
+      (votes w ++ match acc_b s' with Some b => [(i, b, acc_v s')] | None => [] end).
 
 Definition sys_step (n : Z) (w : sys) (a : action) : sys :=
   match a with
@@ -381,7 +383,7 @@ Definition sys_step (n : Z) (w : sys) (a : action) : sys :=
       | Some (src, m) => sys_handle n w (dst_of m) (to_input src m) (remove_nth k (net w)) (timers w) (proposed w)
       | None => w
       end
-  | ADrop k => mkS (nodes w) (remove_nth k (net w)) (timers w) (sent w) (proposed w)
+  | ADrop k => mkS (nodes w) (remove_nth k (net w)) (timers w) (sent w) (proposed w) (votes w)
   | AFire k =>
       match nth_error (timers w) k with
       | Some (i, b) => sys_handle n w i (IRetry b) (net w) (remove_nth k (timers w)) (proposed w)
